@@ -46,11 +46,28 @@ def run(run, ix, tier):
     run.rule('B-R3t', floor=3, desc='(prec, rounding) threaded into from_str')
     eng = get_round_engine(ix)
     kernel_obligations(run, ix, ['from_str'], single=False, rule_single=None)
+    check_from_str_exact(run, ix)
+    check_threading(run, ix)
+    from .c02 import check_keyword_independence
+    check_keyword_independence(run, ix, 'B-R3t')
+    check_interval_literals(run, ix, eng)
+    check_shared_prefix_sign(run, ix)
+    check_interval_forms(run, ix)
+    check_no_lossy_cache(run, ix)
+    check_literal_length(run, ix)
+    check_text_never_through_float(run, ix)
+
+
+def check_from_str_exact(run, ix, rule='B-R5'):
+    """from_str derives its value from the exact integer (mantissa, exponent) pair: no float detour, one rounding of exact
+    integers for moderate exponents, exact mantissa times a direction-consistent power of ten for huge ones.  Also run by
+    C08 (rule W-R6): the read-back half of eval(repr(x)) == x needs it."""
+    RULE = rule
     f = ix.func(LIBMPF, 'from_str')
     xs, pname, rname = f.params[:3]
 
-    def fail(site, why, line=None, rule='B-R5'):
-        run.fail(Finding(rule, LIBMPF, 'from_str', site, why, line=line))
+    def fail(site, why, line=None, rule=None):
+        run.fail(Finding(rule or RULE, LIBMPF, 'from_str', site, why, line=line))
     # (1) no machine-float detour
     bad = [x for x in _walk_own(f.node) if isinstance(x, ast.Call) and
            norm(x.func) in ('float', 'from_float', 'math.ldexp')]
@@ -61,7 +78,7 @@ def run(run, ix, tier):
         fail(norm(st), 'the literal is routed through a machine float: it is rounded to 53 bits '
              'first and then again to the target precision (double rounding)', st.lineno)
     else:
-        run.ok('B-R5', 'from_str never converts through a Python float')
+        run.ok(RULE, 'from_str never converts through a Python float')
     # (2) the integers come from str_to_man_exp
     src = [x for x in _walk_own(f.node) if isinstance(x, ast.Assign) and
            isinstance(x.value, ast.Call) and norm(x.value.func) == 'str_to_man_exp']
@@ -69,7 +86,7 @@ def run(run, ix, tier):
         fail('str_to_man_exp', 'exact (mantissa, exponent) extraction not found', f.lineno)
         return
     man, exp = [e.id for e in src[0].targets[0].elts]
-    run.ok('B-R5', '%s, %s = str_to_man_exp(...) are exact integers' % (man, exp))
+    run.ok(RULE, '%s, %s = str_to_man_exp(...) are exact integers' % (man, exp))
     # (3) branch structure on |exp|
     big = [x for x in _walk_own(f.node) if isinstance(x, ast.If) and
            norm(x.test).startswith('abs(%s) >' % exp)]
@@ -85,7 +102,7 @@ def run(run, ix, tier):
             names = set(y.id for a in x.args[:-2] for y in ast.walk(a) if isinstance(y, ast.Name))
             if args[-2:] == [pname, rname] and names <= {man, exp}:
                 n_ok += 1
-                run.ok('B-R5', 'moderate exponent: %s is one rounding of exact integers' % norm(x, 60))
+                run.ok(RULE, 'moderate exponent: %s is one rounding of exact integers' % norm(x, 60))
             else:
                 fail(norm(x), 'moderate-exponent conversion is not a single rounding of the exact '
                      'integers with the caller\'s (prec, rnd)', x.lineno)
@@ -151,24 +168,15 @@ def run(run, ix, tier):
     if problems:
         fail(norm(b), '; '.join(problems), b.lineno)
     else:
-        run.ok('B-R5', 'huge exponent: exact mantissa x directed power of ten, rounded once more with rnd')
+        run.ok(RULE, 'huge exponent: exact mantissa x directed power of ten, rounded once more with rnd')
     # p/q literals
     fr = [x for x in _walk_own(f.node) if isinstance(x, ast.Return) and
           isinstance(x.value, ast.Call) and norm(x.value.func) == 'from_rational']
     if fr and [norm(a) for a in fr[0].value.args[-2:]] == [pname, rname]:
-        run.ok('B-R5', "'p/q' literals: from_rational(int(p), int(q), prec, rnd)")
+        run.ok(RULE, "'p/q' literals: from_rational(int(p), int(q), prec, rnd)")
     else:
         fail("'p/q' branch", 'fraction literals are not converted by one directed rational rounding', f.lineno)
 
-    check_threading(run, ix)
-    from .c02 import check_keyword_independence
-    check_keyword_independence(run, ix, 'B-R3t')
-    check_interval_literals(run, ix, eng)
-    check_shared_prefix_sign(run, ix)
-    check_interval_forms(run, ix)
-    check_no_lossy_cache(run, ix)
-    check_literal_length(run, ix)
-    check_text_never_through_float(run, ix)
 
 
 def check_threading(run, ix):
